@@ -9,7 +9,7 @@ THEOREMS = ["GrpcProofs.C47." + t for t in (
     "value_is_comma_join", "absent_header_never_matches", "invert_flips_only_when_present",
     "header_exact_spec", "header_prefix_spec", "header_suffix_spec", "header_contains_spec",
     "header_regex_spec", "header_range_spec", "header_string_spec",
-    "present_match_partial", "present_match_counterexample",
+    "present_match_spec",
     "decimal_spec", "caseEq_spec", "eqFold_spec", "prefixFold_spec", "suffixFold_spec", "infixFold_spec",
     "string_matcher_spec", "string_matcher_case_sensitive", "ignore_case_is_ascii_fold",
     "from_proto_spec", "path_exact_spec", "path_prefix_spec", "path_regex_spec", "regex_full_string",
@@ -22,7 +22,8 @@ LEVEL_TEXT = ("Machine-checked Lean proof, for every byte string, header map and
               "computes the specified predicate: comma-joined header value, exact/prefix/suffix/contains/regex(full string) compare, "
               "range = base-10 integer in [start,end), invert only flips when the header is present, ignore_case/case_insensitive "
               "= position-wise equality up to ASCII case. The port is diffed against the real matchers on every run; present_match on "
-              "an empty-valued header and Unicode case folding of non-ASCII bytes are violations of the unchanged code (known findings).")
+              "an empty-valued header and Unicode case folding of non-ASCII bytes were violations of the pinned code; both are repaired "
+              "(fix commits 8ad6d37, 04d8d0c) and are reported again if they return.")
 LEVEL_NOTE = ("Readings: (1) ASCII case-insensitive = same length and position-wise equal or the same ASCII letter in two cases "
               "(theorem caseEq_spec/eqFold_spec); (2) 'header present' = the key is in the header map, as the other seven matchers use "
               "it; (3) regex matchers are specified through Re.matches, a derivative matcher over a small AST that is proved to decide "
